@@ -46,6 +46,16 @@ func genField(r *vu.Rng) hpack.HeaderField {
 		f = respPseudo[r.Intn(len(respPseudo))]
 	case 2:
 		f.Name = oddNames[r.Intn(len(oddNames))]
+	case 3:
+		// every byte class boundary of the token table: a mostly valid name with one arbitrary byte
+		b := r.BytesFrom("abcxyz019-_", 1+r.Intn(4))
+		c := byte(0x20 + r.Intn(0x60))
+		if r.Chance(1, 4) {
+			pool := "@AZ[`az{/09:~\x7f\x80\xff\x00\x1f !\"(),;<=>?\\]}|^"
+			c = pool[r.Intn(len(pool))]
+		}
+		b[r.Intn(len(b))] = c
+		f.Name = string(b)
 	default:
 		f.Name = goodNames[r.Intn(len(goodNames))]
 	}
@@ -53,6 +63,16 @@ func genField(r *vu.Rng) hpack.HeaderField {
 		switch r.Intn(8) {
 		case 0:
 			f.Value = oddValues[r.Intn(len(oddValues))]
+		case 3:
+			// one arbitrary byte (incl. the CTL / LWS / DEL boundaries) in an otherwise plain value
+			b := r.BytesFrom("abc 123", 1+r.Intn(5))
+			c := byte(r.Intn(256))
+			if r.Bool() {
+				pool := "\x00\x08\x09\x0a\x0d\x1f\x20\x21\x7e\x7f\x80\xff"
+				c = pool[r.Intn(len(pool))]
+			}
+			b[r.Intn(len(b))] = c
+			f.Value = string(b)
 		case 1:
 			f.Value = ""
 		case 2:
